@@ -273,6 +273,22 @@ def gen_atom(rng, p, depth, allow_bare_col=True):
             return ("cmp", "in", needle, ("list", tuple(gen_lit(rng, p, typ) for _ in range(n))))
         if r < 0.72 and p.null_cmp:
             typ = rng.choice(sorted(p.types))
+            if typ == "bool" and p.null_cmp_expr and p.bool_cmp_atoms and depth > 0 and rng.random() < 0.5:
+                # null test of a boolean *expression*: (not flag) ne null, null eq (a gt 1 or b lt 2)
+                rr = rng.random()
+                if rr < 0.35:
+                    x = ("un", "not", gen_bool_operand(rng, p, depth - 1))
+                elif rr < 0.7:
+                    x = ("bool", rng.choice(["and", "or"]), gen_atom(rng, p, depth - 1, False),
+                         gen_atom(rng, p, depth - 1, False))
+                else:
+                    x = gen_atom(rng, p, depth - 1, allow_bare_col=False)
+                if x[0] in ("lit", "id"):
+                    x = ("un", "not", T.ident("flag")) if "flag" in p.columns else x
+                t = ("cmp", rng.choice(["eq", "ne"]), x, T.lit("null", "null"))
+                if p.null_left and rng.random() < 0.5:
+                    t = ("cmp", t[1], t[3], t[2])
+                return t
             if p.null_cmp_expr and rng.random() < 0.3 and typ != "bool":
                 x = gen(rng, p, typ, max(0, depth - 1))
                 if x[0] == "lit":
